@@ -139,6 +139,7 @@ def run(prog: Program, res: Result, tier: str) -> None:
                 instance=inst)
     check_idmap(prog, res, fi)
     check_idx_id_mix(prog, res, fi)
+    check_ring_choice(prog, res, fi)
     check_falsy_and_state(prog, res, fi)
     res.exhaustive = True
     res.trusted += ["literal permutation tables (checked by C04)",
@@ -325,6 +326,106 @@ def check_idx_id_mix(prog: Program, res: Result, fi) -> None:
                         "identifiers are atom-map numbers", instance=inst)
     res.need("R-IDX-ID-MIX", n, 28, "comparisons / map lookups with "
              "inferable kinds in the importer")
+
+
+def check_ring_choice(prog: Program, res: Result, fi) -> None:
+    from ..convtables import Fold, UNK
+    res.rule("R-RING-CHOICE", "the ring-cis inference looks at the smallest "
+             "ring that contains the double bond (evaluated on a bond shared "
+             "by a 6- and an 8-membered ring: the ring list is ordered by the "
+             "code's own sort key and the entry it then reads must be the "
+             "6-ring): the small ring forces cis whatever larger ring the "
+             "bond also lies in")
+    inst = "smg_from_rdmol: ring examined for the cis inference"
+    name = None
+    for n in ast.walk(fi.node):
+        if isinstance(n, ast.Assign) and len(n.targets) == 1 and isinstance(
+                n.targets[0], ast.Name) and isinstance(
+                n.value, ast.ListComp) and "GetSymmSSSR" in norm(
+                n.value.generators[0].iter) and isinstance(
+                n.value.elt, ast.Tuple):
+            name = n.targets[0].id
+            elt = n.value.elt
+    if name is None:
+        res.unrecognised("R-RING-CHOICE", inst, fi.loc(),
+                         "list of (aromatic, size, atoms) ring records over "
+                         "GetSymmSSSR not found")
+        return
+    # which tuple position holds the size / the aromatic flag
+    pos_size = [i for i, x in enumerate(elt.elts)
+                if norm(x).startswith("len(")]
+    if len(pos_size) != 1:
+        res.unrecognised("R-RING-CHOICE", inst, fi.loc(elt),
+                         "ring record has no single len(ring) component")
+        return
+    def record(size):
+        r = []
+        for i, x in enumerate(elt.elts):
+            if i == pos_size[0]:
+                r.append(size)
+            elif norm(x).startswith(("list(", "tuple(", "set(")) or \
+                    isinstance(x, ast.Name):
+                r.append(f"ring{size}")
+            else:
+                r.append(False)        # not aromatic
+        return tuple(r)
+    sample = [record(8), record(6)]
+    order = None
+    for n in ast.walk(fi.node):
+        if isinstance(n, ast.Call) and isinstance(n.func, ast.Attribute) \
+                and n.func.attr == "sort" and norm(n.func.value) == name:
+            kw = {k.arg: k.value for k in n.keywords}
+            key = kw.get("key")
+            rev = kw.get("reverse")
+            revv = False
+            if rev is not None:
+                revv = Fold({}).ev(rev)
+                if revv is UNK:
+                    order = None
+                    break
+            def keyf(item):
+                if key is None:
+                    return item
+                if not isinstance(key, ast.Lambda) or len(
+                        key.args.args) != 1:
+                    return UNK
+                return Fold({key.args.args[0].arg: item}).ev(key.body)
+            ks = [keyf(x) for x in sample]
+            if any(k is UNK for k in ks):
+                order = None
+                break
+            try:
+                order = [x for _k, x in sorted(
+                    zip(ks, sample), key=lambda t: t[0], reverse=bool(revv))]
+            except TypeError:
+                order = None
+    if order is None:
+        res.unrecognised("R-RING-CHOICE", inst, fi.loc(),
+                         f"`{name}.sort(key=lambda ..)` not found or its key "
+                         "not evaluable")
+        return
+    idx = set()
+    for n in ast.walk(fi.node):
+        if isinstance(n, ast.Subscript) and norm(n.value) == name and \
+                isinstance(n.slice, ast.Constant) and isinstance(
+                n.slice.value, int):
+            idx.add(n.slice.value)
+    if len(idx) != 1:
+        res.unrecognised("R-RING-CHOICE", inst, fi.loc(),
+                         f"the ring list is read at positions {sorted(idx)}")
+        return
+    chosen = order[idx.pop()]
+    if chosen[pos_size[0]] == 6:
+        res.ok("R-RING-CHOICE", inst, fi.loc())
+    else:
+        res.bad("R-RING-CHOICE", "smg_from_rdmol: cis inference reads the "
+                "largest ring", fi.loc(), f"{inst}: for a double bond shared "
+                "by a 6-ring and an 8-ring the code examines the 8-ring; it "
+                "is not smaller than _min_trans_ring_size, so the cis "
+                "constraint of the 6-ring is ignored and an arbitrary, "
+                "spelling dependent E/Z is stored (C1CCCC2=C1CCCCCC2 and "
+                "C12=C(CCCC1)CCCCCC2 import to unequal graphs)",
+                instance=inst)
 
 
 def check_falsy_and_state(prog: Program, res: Result, fi) -> None:
